@@ -824,6 +824,46 @@ class WellFormed(Monitor):
         return out
 
 
+class RetrievalFallback(Monitor):
+    """C15, retrieval side: a ValueError raised by merge/embed/mask/forwards while discovery is
+    computing must be turned into the fallback: the outermost sigtools.signature call on an
+    object without an explicit forger returns, it does not raise ValueError."""
+    points = ('merge', 'embed', 'mask', '_mask', 'forwards', 'forged_signature')
+    prop = 'C15'
+
+    def __init__(self, ctx):
+        Monitor.__init__(self, ctx)
+        self.pending = 0
+
+    def post(self, point, args, kwargs, ok, value, tok):
+        ctx = self.ctx
+        inside = any(p == 'forged_signature' for p, s in monitor.NESTING)
+        if point != 'forged_signature':
+            if inside and not ok and isinstance(value, ValueError):
+                self.pending += 1
+            return
+        if inside:
+            return
+        pending, self.pending = self.pending, 0
+        if not pending:
+            return
+        ctx.count('C15.retrievals_with_algebra_failure_inside')
+        subject = args[0] if args else kwargs.get('obj')
+        if not ok and isinstance(value, ValueError):
+            from sigtools import _util
+            try:
+                explicit = getattr(_util.get_introspectable(subject), '_sigtools__forger', None) is not None
+            except Exception:
+                explicit = False
+            if explicit:
+                ctx.count('C15.explicit_declaration_surfaces')
+                return
+            ctx.violation('C15', 'RetrievalFallback', 'algebra-failure-escapes-retrieval',
+                          'a %s raised by the algebra inside discovery escaped sigtools.signature instead of the fallback' % type(value).__name__,
+                          {'subject': repr(subject)[:200], 'exception': repr(value)[:300], 'algebra_failures_inside': pending},
+                          dict(workload='retrieval', note='see the W-AUTO program of the enclosing case'))
+
+
 # =============================================================== C16 (algebra half)
 
 class Immutable(Monitor):
